@@ -76,6 +76,7 @@ theorem tick_same (m : M) : Same m (tick m).2 := by
   unfold tick
   split
   · exact ⟨rfl, rfl, rfl⟩
+  · exact ⟨rfl, rfl, rfl⟩
   · split <;> exact ⟨rfl, rfl, rfl⟩
 
 theorem popStack_spec {m m' : M} (h : popStack m = some m') :
@@ -166,6 +167,7 @@ theorem SameG.trans {a b c : M} (h1 : SameG a b) (h2 : SameG b c) : SameG a c :=
 theorem tick_sameG (m : M) : SameG m (tick m).2 := by
   unfold tick
   split
+  · exact ⟨⟨rfl, rfl, rfl⟩, rfl, rfl⟩
   · exact ⟨⟨rfl, rfl, rfl⟩, rfl, rfl⟩
   · split <;> exact ⟨⟨rfl, rfl, rfl⟩, rfl, rfl⟩
 
